@@ -14,7 +14,9 @@ REQUIRED = ['C05.mem_findPeaks', 'C05.mem_findTroughs', 'C05.findPeaks_sorted', 
             'C05.envGrid_eq_range', 'C05.envGridPinned_offsets', 'C05.envGridPinned_fractional_witness',
             'C05.interpEnvelope_never_raises', 'C05.interpEnvelope_at_sample', 'C05.interpEnvelope_none_iff',
             'C05.upper_passes_through_peaks', 'C05.lower_passes_through_troughs',
-            'C05.combined_passes_through_abs_peaks']
+            'C05.combined_passes_through_abs_peaks',
+            'C05.paddedExtrema_rounds', 'C05.needsMore_false_iff_covered', 'C05.paddedExtrema_min_knots',
+            'C05.paddedExtrema_pad0', 'C05.interpEnvelope_pad0_raises']
 TRUSTED = ['the interpolant (scipy splrep/splev, PchipInterpolator, pchip) is an oracle: the model receives its values at the sample '
            'indices 0..n-1 as a table, rebuilt by the harness with the same scipy constructor from the extrema that the real '
            'interp_envelope(ret_extrema=True) returned on the same run',
